@@ -6,6 +6,8 @@ pub mod c02;
 pub mod c05;
 pub mod c06;
 pub mod c08;
+pub mod c09;
+pub mod c10;
 pub mod c11;
 pub mod c12;
 pub mod c13;
@@ -25,6 +27,8 @@ pub fn all() -> Vec<Prop> {
         Prop { id: "C05", run: c05::run, replay: c05::replay },
         Prop { id: "C06", run: c06::run, replay: c06::replay },
         Prop { id: "C08", run: c08::run, replay: c08::replay },
+        Prop { id: "C09", run: c09::run, replay: c09::replay },
+        Prop { id: "C10", run: c10::run, replay: c10::replay },
         Prop { id: "C11", run: c11::run, replay: c11::replay },
         Prop { id: "C12", run: c12::run, replay: c12::replay },
         Prop { id: "C13", run: c13::run, replay: c13::replay },
